@@ -212,8 +212,16 @@ def run_tmp_once(case, ctx, fault_at, sc, run_no):
             if not dirs:
                 raise
             # expected: the exit clean-up could not remove the directory. Repair and flush again.
+            # ... in half of the cases by putting a plain file back where the pool had created one: that path was created by the
+            # pool and never removed, so it is still the pool's to list and to remove (a flush that forgets a path *before* it has
+            # removed it was seeded in round 16; a directory that the harness deletes itself cannot show that)
+            restore = len(everything) % 2 == 1
             for p in dirs:
                 os.rmdir(p)
+                if restore:
+                    with open(p, "w"):
+                        pass
+                    ctx.label("failed-removal-repaired-by-restoring-the-file")
             try:
                 pool.flush()
             except Exception as e2:  # noqa
